@@ -358,7 +358,14 @@ struct BulkWorld : World
       e = (num == 0 && !null && sa != 0) ? EITHER : ok ? MUST_PROCEED : MUST_ABORT;
       if (ssbx != 0)
         C->probe("source_in_other_live_sandbox");
-      o = guarded([&] { rlbox::memcpy(*sb[0], d, s, (size_t)num); });
+      o = guarded([&] {
+        if ((op.a[3] >> 1) % 3 == 1)
+          rlbox::memcpy(*sb[0], d, s, rlbox::tainted<size_t, Sbx>((size_t)num)); // the count is a tainted value itself
+        else if ((op.a[3] >> 1) % 3 == 2 && num <= 0x7fffffff)
+          rlbox::memcpy(*sb[0], d, s, (int)num);
+        else
+          rlbox::memcpy(*sb[0], d, s, (size_t)num);
+      });
       if (ok && ssbx == 0)
         rallowed.push_back(Range{ 0, (size_t)soff, (size_t)num });
     } else {
@@ -373,7 +380,12 @@ struct BulkWorld : World
       bool src_ok = outside_all(sa, num) && num <= APPMAX + 4096;
       bool ok = !null && num >= 1 && num <= S && in_region(0, da, num) && src_ok;
       e = (num == 0 && !null) ? EITHER : ok ? (crosses_block(sa, num) ? EITHER : MUST_PROCEED) : MUST_ABORT;
-      o = guarded([&] { rlbox::memcpy(*sb[0], d, src, (size_t)num); });
+      o = guarded([&] {
+        if ((op.a[3] >> 1) % 3 == 1)
+          rlbox::memcpy(*sb[0], d, src, rlbox::tainted<size_t, Sbx>((size_t)num));
+        else
+          rlbox::memcpy(*sb[0], d, src, (size_t)num);
+      });
     }
     C->ev("%s doff=%llu num=%llu -> %s", opn, (unsigned long long)off, (unsigned long long)num, oname(o));
     judge(e, o, opn, "memcpy ranges");
@@ -406,14 +418,36 @@ struct BulkWorld : World
     auto d = ptr_at<char>(0, (int64_t)off, null);
     auto s = ptr_at<char>(0, (int64_t)soff, false);
     uintptr_t da = (uintptr_t)d.UNSAFE_unverified(), sa = (uintptr_t)s.UNSAFE_unverified();
-    bool ok = !null && num >= 1 && num <= S && in_region(0, da, num) && in_region(0, sa, num);
-    Expect e = (num == 0 && !null) ? EITHER : ok ? MUST_PROCEED : MUST_ABORT;
+    bool app_operand = (op.a[3] & 6) == 6; // the second operand is an application buffer (possibly the bytes just before the region)
+    const uint8_t* asrc = op.a[4] < 0 ? impl[0]->mem.base + op.a[4] : appbuf + ((uint64_t)op.a[4] % 512);
+    if (app_operand)
+      sa = (uintptr_t)asrc;
+    bool ok = !null && num >= 1 && num <= S && in_region(0, da, num) && (app_operand ? (outside_all(sa, num) && num <= APPMAX + 4096) : in_region(0, sa, num));
+    Expect e = (num == 0 && !null) ? EITHER : ok ? (app_operand && crosses_block(sa, num) ? EITHER : MUST_PROCEED) : MUST_ABORT;
     Snap before = snap();
     int got = 0;
-    Outcome o = guarded([&] { got = rlbox::memcmp(*sb[0], d, s, (size_t)num).UNSAFE_unverified(); });
+    Outcome o = guarded([&] {
+      if (app_operand) {
+        C->probe("memcmp_against_application_buffer");
+        got = rlbox::memcmp(*sb[0], d, (const char*)asrc, (size_t)num).UNSAFE_unverified();
+      } else if (op.a[3] & 1)
+        got = rlbox::memcmp(*sb[0], d, s, rlbox::tainted<size_t, Sbx>((size_t)num)).UNSAFE_unverified();
+      else
+        got = rlbox::memcmp(*sb[0], d, s, (size_t)num).UNSAFE_unverified();
+    });
     C->ev("memcmp -> %s", oname(o));
     judge(e, o, "memcmp", "memcmp ranges");
     Snap after = snap();
+    if (app_operand) {
+      if (!C->stop && diff_ok(before, after, {}, "memcmp") && o == OK && ok && sa >= (uintptr_t)arena && sa + num <= (uintptr_t)arena + ARENA) {
+        int want = memcmp(&before.reg[0][off], &before.app[sa - (uintptr_t)arena], (size_t)num);
+        if ((want < 0) != (got < 0) || (want > 0) != (got > 0))
+          C->violate("C10", "request_not_carried_out@memcmp", "sign of the comparison differs from the reference");
+      }
+      if (!C->stop && ok)
+        reads_ok({ Range{ 0, (size_t)off, (size_t)num } }, "memcmp");
+      return;
+    }
     if (!C->stop && diff_ok(before, after, {}, "memcmp") && o == OK && ok) {
       int want = memcmp(&before.reg[0][off], &before.reg[0][soff], (size_t)num);
       if ((want < 0) != (got < 0) || (want > 0) != (got > 0))
